@@ -107,7 +107,8 @@ PoissonDistribution<RealType>::operator()(Generator& rng) -> result_type
         return static_cast<result_type>(k - 1);
     }
     // Use Gaussian approximation rounded to nearest integer
-    return result_type(sample_normal_(rng) + real_type(0.5));
+    // (a sample below -0.5 would be a negative value converted to unsigned)
+    return result_type(clamp_to_nonneg(sample_normal_(rng) + real_type(0.5)));
 }
 //---------------------------------------------------------------------------//
 }  // namespace celeritas
